@@ -1,6 +1,6 @@
 import SaModel.Lemmas.C01R2
 /-
-`build_builder` establishes `Shape` (for the data types R2 covers: everything except view types and dictionaries).
+`build_builder` establishes `Shape` (for the data types R2 covers: everything except dictionaries).
 -/
 namespace SaModel.Build
 open SaModel SaModel.Spec
@@ -8,7 +8,6 @@ open SaModel SaModel.Spec
 mutual
 /-- data types covered by R2 -/
 def covered : DataType → Bool
-  | .utf8View | .binaryView => false
   | .dictionary _ _ => false
   | .list f | .largeList f => coveredF f
   | .fixedSizeList f _ => coveredF f
@@ -91,8 +90,10 @@ theorem newDT_shape : ∀ (dt : DataType) (path : String) (n : Bool) (md : Metad
     simp only [newDT] at h; cases h; simp only [Shape]; exact ⟨rfl, isSome_newValidity n⟩
   | .largeBinary, path, n, md, b, _, h => by
     simp only [newDT] at h; cases h; simp only [Shape]; exact ⟨rfl, isSome_newValidity n⟩
-  | .utf8View, _, _, _, _, hc, _ => by simp [covered] at hc
-  | .binaryView, _, _, _, _, hc, _ => by simp [covered] at hc
+  | .utf8View, path, n, md, b, _, h => by
+    simp only [newDT] at h; cases h; simp only [Shape]; exact ⟨rfl, isSome_newValidity n⟩
+  | .binaryView, path, n, md, b, _, h => by
+    simp only [newDT] at h; cases h; simp only [Shape]; exact ⟨rfl, isSome_newValidity n⟩
   | .fixedSizeBinary k, path, n, md, b, _, h => by
     simp only [newDT] at h
     split at h
